@@ -498,22 +498,22 @@ var fns = []struct {
 	qN, tN   int
 	nontrivK func(c *Case) (bool, string)
 }{
-	{"IntegerSquareroot", 40000, 800000, nil},
-	{"NextPowerOfTwo", 20000, 400000, nil},
-	{"IsPowerOfTwo", 20000, 400000, nil},
-	{"MinMax", 5000, 100000, nil},
-	{"TimeToSlot", 20000, 400000, nil},
-	{"TimeAtSlot", 20000, 400000, nil},
-	{"EpochStartSlot", 20000, 400000, nil},
-	{"SlotToEpoch", 10000, 200000, nil},
-	{"ComputeActivationExitEpoch", 10000, 200000, nil},
-	{"GetChurnLimit", 10000, 200000, nil},
-	{"CommitteeCount", 10000, 200000, nil},
-	{"CheckSlotSpan", 20000, 400000, nil},
-	{"Hash", 3000, 60000, nil},
-	{"GetHashFn", 2000, 40000, nil},
-	{"XorBytes32", 2000, 40000, nil},
-	{"VerifyMerkleBranch", 5000, 100000, nil},
+	{"IntegerSquareroot", 320000, 800000, nil},
+	{"NextPowerOfTwo", 160000, 400000, nil},
+	{"IsPowerOfTwo", 160000, 400000, nil},
+	{"MinMax", 40000, 100000, nil},
+	{"TimeToSlot", 160000, 400000, nil},
+	{"TimeAtSlot", 160000, 400000, nil},
+	{"EpochStartSlot", 160000, 400000, nil},
+	{"SlotToEpoch", 80000, 200000, nil},
+	{"ComputeActivationExitEpoch", 80000, 200000, nil},
+	{"GetChurnLimit", 80000, 200000, nil},
+	{"CommitteeCount", 80000, 200000, nil},
+	{"CheckSlotSpan", 160000, 400000, nil},
+	{"Hash", 24000, 60000, nil},
+	{"GetHashFn", 16000, 40000, nil},
+	{"XorBytes32", 16000, 40000, nil},
+	{"VerifyMerkleBranch", 40000, 100000, nil},
 }
 
 func TestCheck(t *testing.T) {
